@@ -74,7 +74,21 @@ def case(ctx, idx, res):
             ops = []
             expected = set()
             nops = r.choice([3, 8, 20, 60, 200 if ctx.tier == 'thorough' else 40])
-            strategy = r.choice(['random', 'ascending', 'descending', 'blocks'])
+            strategy = r.choice(['random', 'ascending', 'descending', 'blocks', 'shared-ends', 'shared-ends'])
+            if strategy == 'shared-ends':
+                # lists that agree in length, first and last node but not in between (what a "same list" shortcut would confuse)
+                h = r.choice(handles)
+                nodes = sorted(allnodes[h], key=lambda n: n.order)
+                if len(nodes) >= 5:
+                    k = r.choice([3, 3, 4, 6])
+                    lo, hi = sorted(r.sample(range(len(nodes)), 2))
+                    if hi - lo >= k:
+                        for _ in range(r.choice([2, 3])):
+                            inner = sorted(r.sample(range(lo + 1, hi), min(k - 2, hi - lo - 1)))
+                            sub = [nodes[lo]] + [nodes[i] for i in inner] + [nodes[hi]]
+                            ops.append('addlistindoc doc %s' % ';'.join('%s:%s' % (h, n.path()) for n in sub))
+                            expected.update((h, n.path()) for n in sub)
+                nops = r.choice([0, 2])
             for _ in range(nops):
                 h = r.choice(handles)
                 nodes = allnodes[h]
@@ -121,9 +135,18 @@ def case(ctx, idx, res):
         h, doc, xml, info, xer = docs[0]
         nodes = allnodes[h]
         variables = c02.make_vars(r, nodes)
+        onodes = sorted(nodes, key=lambda n: n.order)
+        if len(onodes) >= 6:
+            lo, hi = sorted(r.sample(range(len(onodes)), 2))
+            if hi - lo >= 3:
+                k = min(r.choice([1, 2, 4]), hi - lo - 1)
+                variables['ns1'] = [onodes[lo]] + [onodes[i] for i in sorted(r.sample(range(lo + 1, hi), k))] + [onodes[hi]]
+                variables['ns2'] = [onodes[lo]] + [onodes[i] for i in sorted(r.sample(range(lo + 1, hi), k))] + [onodes[hi]]
         for j in range(12):
             g = gen_xpath.Gen(r, info, c02.VTYPES, max_depth=2)
             A, B, Cx = g.e_ns(1), g.e_ns(1), g.e_ns(1)
+            if j < 3:
+                A, B = '$ns1', '$ns2'          # equal length, same first and last node, different interior
             cnode = r.choice(nodes)
             forms = {'A|B': '(%s) | (%s)' % (A, B), 'B|A': '(%s) | (%s)' % (B, A), '(A|B)|C': '((%s) | (%s)) | (%s)' % (A, B, Cx),
                      'A|(B|C)': '(%s) | ((%s) | (%s))' % (A, B, Cx), 'A|A': '(%s) | (%s)' % (A, A), 'A': A}
